@@ -489,4 +489,103 @@ Proof.
       assert (E' : cn st (kmer_at K (nd_seq n) 0) = cn st (kmer_at K (nd_seq n) p')) by (rewrite <- E; now rewrite cn_rc_).
       apply (win_inj n 0 p' Hn) in E'; try lia. subst p'. now apply (kpal_false_ne st _ Hs Py).
 Qed.
+
+(* ---- a merge in the frame of x is a mergeable link of the table (Spec/Unitig.v) ---- *)
+Local Notation kkey := (kkey pay T).
+Lemma fst_kcanon_flip raw : fst (kcanon_flip st raw) = ck raw.
+Proof. unfold kcanon_flip, canon_k, canon_flip, canon. destruct st; [reflexivity|]. now destruct (dna_ltb raw (rc raw)). Qed.
+
+Lemma knext_intro i j ent yent d b fl : nth_error T i = Some ent -> nth_error T j = Some yent ->
+  e_num_ext_dir (e_exts pay ent) (dirb d) = 1%N -> kpal st (e_key pay ent) = false -> (b < 4)%N ->
+  e_has_ext (e_exts pay ent) (dirb d) b = true ->
+  kcanon_flip st (extend (e_key pay ent) b d) = (e_key pay yent, fl) ->
+  join (e_data pay ent) (e_data pay yent) = true ->
+  e_num_ext_dir (e_exts pay yent) (dirb (cond_flip (dflip d) fl)) = 1%N -> kpal st (e_key pay yent) = false ->
+  knext pay join st T i d = Some (j, cond_flip (dflip d) fl).
+Proof.
+  intros Hi Hj Hn Hp Hb Hh Hf Hjn Hn' Hp'. unfold knext. rewrite Hi, Hn, Hp. cbn [N.eqb Pos.eqb negb orb].
+  assert (Hin : In ent T) by (eapply nth_error_In; eauto).
+  destruct (unique_ext_spec _ _ (ok_exts _ _ _ _ Hok _ Hin) Hn) as (u & Hu & _ & _ & Huu).
+  rewrite Hu, <- (Huu b Hb Hh), Hf. cbn [fst snd]. rewrite (get_id_key pay K st T Hok _ _ Hj), Hj, Hjn, Hn', Hp'.
+  reflexivity.
+Qed.
+
+Lemma fm_mstep x y : fm x y -> kj (cn st x) (cn st y) = true ->
+  exists i j, kkey i = ck x /\ kkey j = ck y /\ mstep pay join st T i j.
+Proof.
+  intros Hfm Hj. destruct (fm_wf_y x y Hfm) as (Wy & Ly & Nx & Ny).
+  destruct Hfm as (W & Lx & Px & Py & Hne & b & ex & ey & Hb & Ey & Hx & Hy & Nxx & Nyy & Hhx & Hhy).
+  destruct (oexts_inv pay K st T Hok Hsym Hpal x ex Hx) as (entx & Hinx & _ & Hkx & Cx).
+  destruct (oexts_inv pay K st T Hok Hsym Hpal y ey Hy) as (enty & Hiny & _ & Hky & Cy).
+  destruct (In_nth_error _ _ Hinx) as [i Hi]. destruct (In_nth_error _ _ Hiny) as [j Hjj].
+  pose proof (ok_exts _ _ _ _ Hok _ Hinx) as Lex. pose proof (ok_exts _ _ _ _ Hok _ Hiny) as Ley.
+  exists i, j. split; [unfold CompressRefine.kkey; now rewrite Hi|]. split; [unfold CompressRefine.kkey; now rewrite Hjj|].
+  assert (Hij : Nat.eqb i j = false).
+  { apply Nat.eqb_neq. intro E. subst j. rewrite Hi in Hjj. injection Hjj as <-. apply Hne. change (ck x = ck y). congruence. }
+  assert (Hjn : join (e_data pay entx) (e_data pay enty) = true).
+  { rewrite (join_kj entx enty Hinx Hiny), Hkx, Hky. exact Hj. }
+  assert (Pkx : kpal st (e_key pay entx) = false) by (rewrite Hkx, (kpal_ck pay K st T Hok Hsym Hpal); auto).
+  assert (Pky : kpal st (e_key pay enty) = false) by (rewrite Hky, (kpal_ck pay K st T Hok Hsym Hpal); auto).
+  assert (Ynp : st = false -> y <> rc y) by (intro Hs; now apply (kpal_false_ne st)).
+  destruct Cx as [[Ex ->]|(Hnex & Hs & Ex & ->)].
+  - (* x is the key: leave through its right side *)
+    destruct (kcanon_flip st (extend (e_key pay entx) b DRight)) as [yk fl] eqn:Ef.
+    pose proof (fst_kcanon_flip (extend (e_key pay entx) b DRight)) as Ek. rewrite Ef, <- Ex, <- Ey, <- Hky in Ek. cbn [fst] in Ek. subst yk.
+    exists DRight, (cond_flip DLeft fl). rewrite mlink_knext.
+    enough (Hk : knext pay join st T i DRight = Some (j, cond_flip (dflip DRight) fl)) by (rewrite Hk; now rewrite Hij).
+    apply (knext_intro i j entx enty DRight b fl Hi Hjj); auto.
+    destruct (kcanon_flip_cases _ _ _ _ Ef) as [[-> Ek]|(Hs & -> & Ek)]; rewrite <- Ex, <- Ey in Ek; cbn [cond_flip dflip dirb].
+    + destruct Cy as [[_ ->]|(Hney & _)]; [exact Nyy | congruence].
+    + destruct Cy as [[Eyy _]|(_ & _ & _ & ->)]; [exfalso; apply (Ynp Hs); congruence|].
+      rewrite num_ext_rc in Nyy by exact Ley. exact Nyy.
+  - (* x is the reverse complement of the key: leave through the key's left side *)
+    assert (Eraw : extend (e_key pay entx) (comp b) DLeft = rc y).
+    { rewrite Ex, Ey. symmetry. exact (KmerAlgebra.rc_extend x b DRight Nx). }
+    destruct (kcanon_flip st (rc y)) as [yk fl] eqn:Ef.
+    pose proof (fst_kcanon_flip (rc y)) as Ek. rewrite Ef, (ck_rc pay K st T Hok Hsym Hpal y Wy Hs), <- Hky in Ek. cbn [fst] in Ek. subst yk.
+    exists DLeft, (cond_flip DRight fl). rewrite mlink_knext.
+    rewrite num_ext_rc in Nxx by exact Lex. rewrite (has_ext_rc' _ DRight) in Hhx by auto. cbn [negb dflip dirb] in Nxx, Hhx.
+    enough (Hk : knext pay join st T i DLeft = Some (j, cond_flip (dflip DLeft) fl)) by (rewrite Hk; now rewrite Hij).
+    apply (knext_intro i j entx enty DLeft (comp b) fl Hi Hjj); auto using comp_lt4; [now rewrite Eraw|].
+    destruct (kcanon_flip_cases _ _ _ _ Ef) as [[-> Ek]|(_ & -> & Ek)]; cbn [cond_flip dflip dirb].
+    + destruct Cy as [[Eyy _]|(_ & _ & _ & ->)]; [exfalso; apply (Ynp Hs); congruence|].
+      rewrite num_ext_rc in Nyy by exact Ley. exact Nyy.
+    + rewrite ListFacts.rc_involutive in Ek by exact Wy. destruct Cy as [[_ ->]|(Hney & _)]; [exact Nyy | congruence].
+Qed.
+
+(* ---- U3: every merge of the link set is a step inside a node, or closes it ---- *)
+Theorem graph_maximal : maximal K st kj L g.
+Proof.
+  intros n x y Hn Hx Hm. destruct (node_len_wf n Hn) as [Ln Ws].
+  assert (Hxf : wf_dna x /\ length x = K /\ In (cn st x) (node_kmers K st n) /\
+                (In x (kmers K (nd_seq n)) \/ (st = false /\ In (rc x) (kmers K (nd_seq n))))).
+  { unfold okmers in Hx. apply in_app_or in Hx as [Hx|Hx].
+    - pose proof Hx as Hx'. apply kmers_in in Hx' as [p [Hp ->]]. destruct (node_win_ok n p Hn Hp) as (Lx & Wx & _).
+      repeat split; auto. unfold node_kmers. now apply in_map.
+    - assert (Hst : st = true \/ st = false) by (clear; destruct st; auto).
+      destruct Hst as [Hs|Hs]; rewrite Hs in Hx; [destruct Hx|]. apply in_map_iff in Hx as [z [<- Hz]].
+      pose proof Hz as Hz'. apply kmers_in in Hz' as [p [Hp ->]]. destruct (node_win_ok n p Hn Hp) as (Lx & Wx & _).
+      split; [apply rc_wf|]. split; [now rewrite rc_length|]. split.
+      + rewrite cn_rc_ by auto. unfold node_kmers. now apply in_map.
+      + right. split; [exact Hs|]. now rewrite ListFacts.rc_involutive. }
+  destruct Hxf as (Wx & Lx & Hxk & Hcase).
+  assert (Hkey : In (ck x) (keys pay T)).
+  { eapply Permutation_in; [apply graph_kmers_keys|]. unfold graph_kmers. apply in_flat_map. exists n. auto. }
+  destruct (merge_elim x y Wx Lx Hkey Hm) as [Hfm Hj].
+  destruct (fm_wf_y x y Hfm) as (Wy & Ly & Nx & Ny).
+  (* y lies in the same node *)
+  assert (Hyk : In (cn st y) (node_kmers K st n)).
+  { destruct (fm_mstep x y Hfm Hj) as (i & j & Ei & Ej & Hms).
+    destruct (no_mergeable_pair_across pay pay_reduce join K st HK T Hok Hsym join_sym) as (g' & Hc' & Hsame).
+    assert (g' = g) by congruence. subst g'. destruct (Hsame i j Hms) as (n' & Hn' & Hi & Hjn).
+    rewrite Ei in Hi. rewrite Ej in Hjn.
+    assert (n = n') by (apply (flat_map_in_unique (node_kmers K st) g n n' (cn st x) graph_kmers_nodup); auto).
+    subst n'. exact Hjn. }
+  destruct Hcase as [Hin|[Hs Hin]].
+  - exists n, (x, y). repeat split; auto. unfold opairs. apply in_or_app. left. now apply fm_in_node.
+  - pose proof (fm_rc x y Hs Hfm) as Hr.
+    assert (Hp : In (rc y, rc x) (node_pairs K n)) by (apply fm_in_node'; auto; now rewrite cn_rc_).
+    exists n, (x, y). repeat split; auto. unfold opairs. rewrite Hs. apply in_or_app. right.
+    apply in_map_iff. exists (rc y, rc x). split; [|exact Hp]. cbn [fst snd]. now rewrite !ListFacts.rc_involutive.
+Qed.
 End Graph.
